@@ -658,22 +658,46 @@ func (bg *Reader) nextBlock() error {
 		bg.dec.using(bg.current).nextBlockAt(base, nil)
 		bg.current, err = bg.dec.wait()
 	} else {
-		var ok bool
+		var (
+			ok  bool
+			dec *decompressor
+		)
 		for i := 0; i < cap(bg.working); i++ {
-			dec := <-bg.working
+			dec = <-bg.working
 			bg.current, err = dec.wait()
-			bg.waiting <- dec
 			if bg.current.Base() == base {
+				bg.waiting <- dec
 				ok = true
 				break
 			}
+			// The worker stops reading ahead after a failed block.
+			last := err != nil || i == cap(bg.working)-1
 			if err == nil {
 				bg.keep(bg.current)
 				bg.current = nil
 			}
+			if last {
+				break
+			}
+			bg.waiting <- dec
 		}
 		if !ok {
-			panic("bgzf: unexpected block")
+			// The worker did not deliver the expected block: it
+			// skipped it because the cache held it when the worker
+			// looked but no longer does, or it stopped after an
+			// error. Read the block here and point the worker at
+			// its successor, as Seek does.
+			rs, _ := bg.r.(io.ReadSeeker)
+			bg.current, err = dec.
+				using(bg.current).
+				nextBlockAt(base, rs).
+				wait()
+			select {
+			case <-bg.control:
+			default:
+			}
+			bg.control <- bg.current.NextBase()
+			bg.waiting <- dec
 		}
 	}
 	if err != nil {
